@@ -369,6 +369,9 @@ class BlockParser(Parser[BlockState]):
             > a block quote starts
             > with right arrows
         """
+        # a block that interrupts the quote is parsed (and appended) while the
+        # quote is extracted: the quote goes in front of everything it appended
+        index = len(state.tokens)
         text, end_pos = self.extract_block_quote(m, state)
         # scan children state
         child = state.child_state(text)
@@ -382,7 +385,7 @@ class BlockParser(Parser[BlockState]):
         self.parse(child, rules)
         token = {"type": "block_quote", "children": child.tokens}
         if end_pos:
-            state.prepend_token(token)
+            state.tokens.insert(index, token)
             return end_pos
         state.append_token(token)
         return state.cursor
